@@ -117,6 +117,37 @@ def run(ctx):
         exp = b''.join(norm(s['stdout']) for s in singles)
         if norm(a['stdout']) != exp:
             violations.append(viol(c, 'reading files f1..fn processes the values of f1, then f2, ..., no value spanning two files (output == concatenation of per-file outputs)', norm(a['stdout']).decode('utf8', 'replace')[:400], exp.decode('utf8', 'replace')[:400]))
+    # a DIRECTORY as the file argument: every file in it is one input of its own (the order of the files is the file system's):
+    # &index-in-file restarts at 0 in every file, &file-name is that file, &index counts over all of them, values in order per file
+    dcases = []
+    for i in range(12 if ctx['tier'] == 'quick' else 150):
+        nf = rnd.randint(2, 4)
+        files = [[rnd.randint(0, 99) for _ in range(rnd.randint(0, 4))] for _ in range(nf)]
+        if sum(len(f) for f in files) == 0: files[0] = [1]
+        dcases.append({'id': 'D%d' % i, 'cfg': lib.new_cfg(select=['&file-name=fn', '&index-in-file=i', '&index=g', '.=v'], only_objs=False), 'files': True, 'dir': True,
+                       'inputs': [{'data': ''.join('%d\n' % x for x in f).encode(), 'name': 'd%d_%d.json' % (i, t)} for t, f in enumerate(files)], '_files': files})
+    dimpl = lib.run_harness(dcases)
+    for c in dcases:
+        a = dimpl[c['id']]; checked += 1
+        bad = None
+        if a['result'] != 'ok': bad = 'the run succeeds: ' + a['result'] + ' ' + a.get('msg', '')
+        else:
+            rws = [json.loads(r) for r in rows(a['stdout'])]
+            per = {}
+            for r in rws: per.setdefault(os.path.basename(r.get('fn') or '?'), []).append(r)
+            exp = {'d%s_%d.json' % (c['id'][1:], t): f for t, f in enumerate(c['_files']) if f}
+            if [r.get('g') for r in rws] != list(range(len(rws))): bad = '&index counts the values of all files 0,1,2,...'
+            elif set(per) != set(exp): bad = 'every file of the directory is read, and &file-name names it'
+            else:
+                for fn, rs in per.items():
+                    if [r.get('i') for r in rs] != list(range(len(rs))): bad = '&index-in-file restarts at 0 in every file of a directory'
+                    elif [r.get('v') for r in rs] != exp[fn]: bad = 'the values of a file come out in order under its own name'
+                    # the rows of one file are consecutive
+                    gs = [r.get('g') for r in rs]
+                    if not bad and gs != list(range(gs[0], gs[0] + len(gs))): bad = 'files stay separate: the rows of one file are consecutive'
+        if bad:
+            v = viol(c, 'directory argument: ' + bad, a['stdout'].decode('utf8', 'replace')[:500], json.dumps(c['_files'])); v['dir'] = True
+            v['names'] = [x['name'] for x in c['inputs']]; violations.append(v)
     known = []
     for k in ctx['known']:
         w = k['witness']; kc = {'id': 'k', 'cfg': lib.new_cfg(), 'args': w['args'], 'inputs': [{'data': bytes.fromhex(w['stdin_hex'])}]}
@@ -124,8 +155,8 @@ def run(ctx):
         rws = [json.loads(r) for r in rows(res['stdout'])]
         if len(rws) == 2 and rws[1].get('s') != rws[0].get('e') - 0 or (len(rws) == 2 and rws[1].get('s') == 5):
             known.append('%s %s: %s' % (k['id'], k['class'], k['what']))
-    cov = {'evaluations': len(cases), 'distinct_nontrivial': common.nontrivial_count(cases, impl),
-           'rule': 'clean and noisy streams x chunkings (whole, 1-byte reads, random sizes) x partitions into 1..4 files at value boundaries or cutting inside a value x --only-objects-and-arrays on/off; input-context selectors checked against byte offsets computed independently',
+    cov = {'evaluations': len(cases) + len(dcases), 'directory_runs': len(dcases), 'distinct_nontrivial': common.nontrivial_count(cases, impl),
+           'rule': 'clean and noisy streams x chunkings (whole, 1-byte reads, random sizes) x partitions into 1..4 files at value boundaries or cutting inside a value, and directories of 2..4 files given as one argument x --only-objects-and-arrays on/off; input-context selectors checked against byte offsets computed independently',
            'samples': [common.describe(c) for c in cases[:2]],
            'traces_validated_against_impl': len(cases) - len(mism), 'model_mismatches': len(mism), 'direct_relations_checked': checked}
     broken = ['correspondence: model and implementation differ on %d cases, e.g. %s' % (len(mism), json.dumps(mism[0])[:1500])] if mism else []
@@ -139,6 +170,9 @@ def viol(c, rel, obs, exp):
 def replay(ctx, r):
     c = {'id': 'r', 'cfg': lib.new_cfg(), 'args': r['args'], 'files': r.get('files', False),
          'inputs': [{'data': bytes.fromhex(h), 'name': 'in0_%d.json' % t} for t, h in enumerate(r['inputs_hex'])]}
+    if r.get('dir'):
+        c['dir'] = True
+        for x, nm in zip(c['inputs'], r.get('names', [])): x['name'] = nm
     if r.get('chunking'): c['inputs'][0]['chunking'] = r['chunking']
     a = lib.run_harness([c])['r']
     return {'observed': a['stdout'].decode('utf8', 'replace')[:400], 'expected': r.get('expected'), 'fails': True}
